@@ -289,16 +289,18 @@ pub struct RuleProfile {
     pub insertion: bool, pub deletion: bool, pub metathesis: bool,
     /// `...` between input elements; `$` as an input element; structures / syllable variables in substitution outputs; outputs longer or shorter than the input
     pub input_ellipsis: bool, pub input_bound: bool, pub out_struct: bool, pub uneven: bool,
+    /// length modifiers on the outputs of multi-element substitutions
+    pub out_length_multi: bool,
     /// probability (percent) that an element is derived from a segment of the companion word
     pub directed: u32,
 }
 impl RuleProfile {
     pub const FULL: RuleProfile = RuleProfile { structures: true, variables: true, alphas: true, optionals: true, ellipsis: true, sets: true, env_sets: true,
         condensed: true, syll: true, supra_params: true, insertion: true, deletion: true, metathesis: true,
-        input_ellipsis: true, input_bound: true, out_struct: true, uneven: true, directed: 65 };
+        input_ellipsis: true, input_bound: true, out_struct: true, uneven: true, out_length_multi: true, directed: 65 };
     pub const SEGMENTAL: RuleProfile = RuleProfile { structures: false, variables: false, alphas: false, optionals: true, ellipsis: true, sets: true, env_sets: true,
         condensed: false, syll: false, supra_params: false, insertion: false, deletion: false, metathesis: false,
-        input_ellipsis: false, input_bound: false, out_struct: false, uneven: false, directed: 70 };
+        input_ellipsis: false, input_bound: false, out_struct: false, uneven: false, out_length_multi: false, directed: 70 };
 }
 
 pub struct RuleGen<'a> {
@@ -551,6 +553,16 @@ impl<'a> RuleGen<'a> {
         if self.prof.uneven && out.len() > 1 && t.chance(1, 8) { out.pop(); }
         if self.prof.uneven && t.chance(1, 8) { let x = if t.chance(1, 4) { El::SBound } else { let text = pick_seg(t, 5).text.clone(); El::Ipa { text, params: None } }; out.push(x); }
         if out.is_empty() { let x = self.seg_el(t, Where::Output); out.push(x); }
+        if !self.prof.out_length_multi && input.len() > 1 {
+            let strip = |p: &mut Params| p.args.retain(|(_, n)| !n.is_length());
+            for e in out.iter_mut() {
+                match e {
+                    El::Ipa { params: Some(p), .. } | El::Var { params: Some(p), .. } | El::Matrix { params: p, .. } => strip(p),
+                    El::Set(xs) => for x in xs.iter_mut() { match x { El::Ipa { params: Some(p), .. } | El::Matrix { params: p, .. } => strip(p), _ => {} } },
+                    _ => {}
+                }
+            }
+        }
         out
     }
 
@@ -622,4 +634,69 @@ pub fn word_segs(w: &asca::verif::Word) -> Vec<(String, MSeg)> {
 
 pub fn rule_kind(r: &Rule) -> &'static str {
     match (&r.input, &r.output) { (Side::Star, _) => "insertion", (_, Side::Star) => "deletion", (_, Side::Amp) => "metathesis", _ => "substitution" }
+}
+
+// ------------------------------------------------------------------------------------------------
+// Aliases (romanisers / deromanisers) over fresh strings
+
+pub const FRESH: &[&str] = &["Б", "Г", "Д", "Ж", "З", "Л", "П", "Ф", "Ц", "Ч", "Ш", "Щ", "Э", "Ю", "Я", "汉", "语", "字", "カ", "タ", "ナ"];
+
+fn alias_params(t: &mut Tape, allow_len: bool) -> String {
+    let mut parts: Vec<String> = vec![];
+    match t.pick(if allow_len { 5 } else { 3 }) {
+        0 => parts.push(format!("{}stress", if t.chance(1, 2) { "+" } else { "-" })),
+        1 => parts.push(format!("tone:{}", TONES[1 + t.pick(TONES.len() - 1)])),
+        2 => { let f = t.pick(26); parts.push(format!("{}{}", if t.chance(1, 2) { "+" } else { "-" }, FEATS[f].0)); }
+        3 => parts.push(format!("{}long", if t.chance(1, 2) { "+" } else { "-" })),
+        _ => { parts.push("+stress".into()); parts.push("+long".into()); }
+    }
+    format!("[{}]", parts.join(", "))
+}
+
+/// 1–3 romaniser lines; inputs are taken from the given word segments so that they apply. Returns (lines, uses_plus).
+pub fn gen_romanisers(t: &mut Tape, segs: &[(String, MSeg)]) -> (Vec<String>, bool) {
+    let n = 1 + t.weighted(&[5, 3, 1]);
+    let mut lines = vec![]; let mut plus = false; let mut fresh_i = t.pick(FRESH.len());
+    for _ in 0..n {
+        let k = 1 + t.weighted(&[5, 3, 2]);
+        let mut ins = vec![]; let mut outs = vec![];
+        for _ in 0..k {
+            let (inp, is_matrix) = match t.weighted(&[6, 2, 2, 1]) {
+                0 => { let g = if !segs.is_empty() && t.chance(4, 5) { segs[t.pick(segs.len())].0.clone() } else { pick_seg(t, 10).text.clone() };
+                       (if t.chance(1, 3) { format!("{g}:{}", alias_params(t, true)) } else { g }, false) }
+                1 => { let g = GROUPS[t.pick(GROUPS.len())]; (if t.chance(1, 2) { format!("{g}:{}", alias_params(t, true)) } else { g.to_string() }, true) }
+                2 => (alias_params(t, false), true),
+                _ => ("$".to_string(), false),
+            };
+            let out = if inp == "$" { if t.chance(2, 3) { "*".to_string() } else { FRESH[fresh_i % FRESH.len()].to_string() } }
+                      else { match t.weighted(&[6, if is_matrix { 5 } else { 2 }, 1]) { 0 => FRESH[fresh_i % FRESH.len()].to_string(), 1 => { plus = true; format!("+{}", FRESH[fresh_i % FRESH.len()]) }, _ => "*".to_string() } };
+            fresh_i += 1;
+            ins.push(inp); outs.push(out);
+        }
+        lines.push(format!("{} > {}", ins.join(", "), outs.join(", ")));
+    }
+    (lines, plus)
+}
+
+/// 1–2 deromaniser lines mapping fresh strings to IPA (+modifiers); returns (lines, table fresh -> ipa text with modifiers spelled as word text)
+pub fn gen_deromanisers(t: &mut Tape) -> (Vec<String>, Vec<(String, String)>) {
+    let n = 1 + t.weighted(&[3, 2]);
+    let mut lines = vec![]; let mut table = vec![]; let mut fresh_i = t.pick(FRESH.len());
+    for _ in 0..n {
+        let k = 1 + t.weighted(&[4, 3, 2]);
+        let mut ins = vec![]; let mut outs = vec![];
+        for _ in 0..k {
+            let fresh = FRESH[fresh_i % FRESH.len()].to_string(); fresh_i += 1;
+            let ps = pick_seg(t, 20);
+            let (out, plain) = match t.weighted(&[5, 2, 1]) {
+                0 => (ps.text.clone(), ps.text.clone()),
+                1 => (format!("{}:[+long]", ps.text), format!("{}ː", ps.text)),
+                _ => { let ps2 = pick_seg(t, 0); (format!("{}{}", ps.text, ps2.text), format!("{}{}", ps.text, ps2.text)) }
+            };
+            if table.iter().any(|(f, _): &(String, String)| *f == fresh) { continue }
+            ins.push(fresh.clone()); outs.push(out); table.push((fresh, plain));
+        }
+        if !ins.is_empty() { lines.push(format!("{} > {}", ins.join(", "), outs.join(", "))); }
+    }
+    (lines, table)
 }
